@@ -99,6 +99,13 @@ LBlock(ss, d, ly) == Flat([i \in DOMAIN ss |-> LS(ss[i], d, ly)])
 \* a call written as a statement (or at the top level of an expression): no parentheses
 CallP(c, ly) == <<c.f>> \o Flat([i \in DOMAIN c.xs |-> Sep(ly) \o RE(c.xs[i], TRUE, ly)])
 
+\* an expression in a position where the grammar has toplevel_expr (right-hand side of := and =, return value,
+\* if / while condition): a call is written there as in a call statement, without parentheses (a call that is
+\* wanted in parentheses is an explicit grp node)
+RTop(x, ly) == IF x.k = "call" THEN CallP(x, ly)
+               ELSE IF x.k = "wrap" /\ x.x.k = "call" THEN CallP(x.x, ly)
+               ELSE RE(x, FALSE, ly)
+
 \* a multi-line array / map literal [k |-> "ml", x |-> literal, per |-> elements per line]: the lines
 \* after the opening bracket: elements (tight) indented one level deeper, then the closing bracket
 MLLines(m, d, ly) ==
@@ -111,7 +118,7 @@ MLLines(m, d, ly) ==
 Open(m) == IF m.x.k = "map" THEN "{" ELSE "["
 \* head \o value, where the value may be a multi-line literal
 WithValue(head, x, d, ly) == IF x.k = "ml" THEN << head \o <<Open(x)>> >> \o MLLines(x, d, ly)
-                             ELSE << head \o RE(x, FALSE, ly) >>
+                             ELSE << head \o RTop(x, ly) >>
 
 LS(s, d, ly) ==
   LET II == IndP(d, ly)
@@ -120,14 +127,14 @@ LS(s, d, ly) ==
     [] s.k = "infer"  -> WithValue(II \o <<s.nm>> \o Gap(ly) \o <<":=">> \o Gap(ly), s.x, d, ly)
     [] s.k = "asg"    -> WithValue(II \o RE(s.tg, TRUE, ly) \o Gap(ly) \o <<"=">> \o Gap(ly), s.x, d, ly)
     [] s.k = "callst" -> << II \o CallP(s.x, ly) >>
-    [] s.k = "ret"    -> << II \o <<"return">> \o (IF Len(s.xs) = 0 THEN <<>> ELSE <<" ">> \o RE(s.xs[1], FALSE, ly)) >>
+    [] s.k = "ret"    -> << II \o <<"return">> \o (IF Len(s.xs) = 0 THEN <<>> ELSE <<" ">> \o RTop(s.xs[1], ly)) >>
     [] s.k = "brk"    -> << II \o <<"break">> >>
     [] s.k = "if"     -> Flat([j \in DOMAIN s.cs |->
-                              << II \o (IF j = 1 THEN <<"if ">> ELSE <<"else if ">>) \o RE(s.cs[j], FALSE, ly) >>
+                              << II \o (IF j = 1 THEN <<"if ">> ELSE <<"else if ">>) \o RTop(s.cs[j], ly) >>
                                 \o LBlock(s.bs[j], d + 1, ly)])
                          \o (IF Len(s.el) = 0 THEN <<>> ELSE << II \o <<"else">> >> \o LBlock(s.el[1], d + 1, ly))
                          \o << II \o <<"end">> >>
-    [] s.k = "while"  -> << II \o <<"while ">> \o RE(s.c, FALSE, ly) >> \o LBlock(s.ss, d + 1, ly) \o << II \o <<"end">> >>
+    [] s.k = "while"  -> << II \o <<"while ">> \o RTop(s.c, ly) >> \o LBlock(s.ss, d + 1, ly) \o << II \o <<"end">> >>
     [] s.k = "for"    -> << II \o <<"for ">> \o (IF s.nm = "" THEN <<>> ELSE <<s.nm>> \o Gap(ly) \o <<":=">> \o Gap(ly))
                               \o <<"range">> \o Flat([i \in DOMAIN s.xs |-> Sep(ly) \o RE(s.xs[i], TRUE, ly)]) >>
                            \o LBlock(s.ss, d + 1, ly) \o << II \o <<"end">> >>
